@@ -61,3 +61,22 @@ pub fn h_shim_slice_try_into_array<S: Src>(s: &mut S) {
     vcover!(s, n == 32, "shim try_into: the Ok case is reachable");
 }
 harness!(shim_slice_try_into_array, unwind = 2, h_shim_slice_try_into_array);
+// R19 / R18 (copying form), used by ClientHello::rand_time: u32::from_be_bytes is the big-endian value of the four bytes
+// (all 2^32 arrays); <&[u8] as TryInto<[u8; 4]>>::try_into is Ok(copy of the bytes) iff len == 4
+pub fn h_shim_u32_from_be_bytes<S: Src>(s: &mut S) {
+    use core::convert::TryInto;
+    let b: [u8; 4] = s.bytes();
+    let v = u32::from_be_bytes(b);
+    vassert!(s, v == ((b[0] as u32) * 256 + b[1] as u32) * 65536 + (b[2] as u32) * 256 + b[3] as u32, "shim u32::from_be_bytes: ((b0*256+b1)*256+b2)*256+b3");
+    let buf: [u8; 8] = s.bytes();
+    let n = s.usize();
+    vassume!(s, n <= 8);
+    let i = &buf[..n];
+    let r: Result<[u8; 4], _> = i.try_into();
+    match r {
+        Ok(a) => vassert!(s, n == 4 && a[0] == i[0] && a[1] == i[1] && a[2] == i[2] && a[3] == i[3], "shim try_into(&[u8] -> [u8; 4]): Ok only for exactly 4 bytes, the same bytes in order"),
+        Err(_) => vassert!(s, n != 4, "shim try_into(&[u8] -> [u8; 4]): 4 bytes never fail"),
+    }
+    vcover!(s, n == 4, "shim try_into copy: the Ok case is reachable");
+}
+harness!(shim_u32_from_be_bytes, unwind = 6, h_shim_u32_from_be_bytes);
